@@ -1,7 +1,7 @@
 use serde::{Deserialize, Serialize};
 
 use crate::{
-    Document, FatToken,
+    Document, FatToken, Punctuation, TokenKind,
     linting::{Lint, LintKind, Suggestion},
 };
 
@@ -40,7 +40,17 @@ impl LintContext {
             .chain(problem_tokens)
             .chain(sequel_tokens)
             .flat_map(|idx| document.get_token(idx))
-            .map(|t| t.to_fat(document.get_source()))
+            .map(|t| {
+                let mut fat = t.to_fat(document.get_source());
+
+                // Where a quote's twin sits is a location, not context: it changes whenever text
+                // elsewhere in the document is edited.
+                if let TokenKind::Punctuation(Punctuation::Quote(quote)) = &mut fat.kind {
+                    quote.twin_loc = None;
+                }
+
+                fat
+            })
             .collect();
 
         Self {
